@@ -261,7 +261,12 @@ def replay(cfg, events):
                 return [[abst(s), abst(p), abst(o), {"k": "default"}] for s, p, o in sink]
             e["before"] = snap()
             try:
-                guarded(lambda: sink.parse(data=e["text"], format=e["fmt"]))
+                target = sink
+                if e.get("into"):
+                    # parse through a named-graph view of the dataset
+                    name = URIRef(e["into"])
+                    target = sink.graph(name) if isinstance(sink, Dataset) else sink.get_context(name)
+                guarded(lambda: target.parse(data=e["text"], format=e["fmt"]))
                 e["res"] = "ok"
             except _Timeout:
                 e["res"] = "timeout"
